@@ -97,7 +97,7 @@ def do_noise(ds, name):
         pass
 
 
-def run_stream(ds, backend, emb, stream, p_units, u, other0, labs, bid="hb"):
+def run_stream(ds, backend, emb, stream, p_units, u, other0, labs, bid="hb", prehistory=False):
     """returns list of problems [(symptom, detail, step)]"""
     if bid in ds.buckets():
         ds.delete_bucket(bid)
@@ -106,12 +106,28 @@ def run_stream(ds, backend, emb, stream, p_units, u, other0, labs, bid="hb"):
     pulsetime = p_units * emb.unit_us / 1_000_000
     prev = {}
     probs = []
+    pre = []
+    if prehistory:
+        # the bucket already has a past, written the way the repository's own tests use replace_last: insert,
+        # then replace_last(<fresh event without an id>).  Far older than the stream and with other data, so
+        # no heartbeat may touch it (seeded: memory.replace dropped the id of the replaced event, and the
+        # first merging heartbeat then rewrote every id-less event)
+        b.insert(emb.ev(-400, 1, "past"))
+        b.replace_last(emb.ev(-400, 2, "past"))
+        pre.append(_content(emb.ev(-400, 2, "past")))
     for n, (s, d, lab) in enumerate(stream):
         hb = emb.ev(s, d, labs[lab])
         newest_before = b.get(limit=1)
         nid = newest_before[0].id if newest_before else None
         try:
-            how = ingest(b, emb.ev(s, d, labs[lab]), pulsetime)
+            if prehistory and n == 0:
+                # ... and the stream's first event got there the same way (insert, then replace_last with a
+                # fresh id-less event of the same content), so the stream CONTINUES such an event
+                b.insert(emb.ev(s, d, labs[lab]))
+                b.replace_last(emb.ev(s, d, labs[lab]))
+                how = "inserted"
+            else:
+                how = ingest(b, emb.ev(s, d, labs[lab]), pulsetime)
         except Exception as e:
             probs.append(("raised-" + type(e).__name__, str(e), n))
             break
@@ -121,9 +137,9 @@ def run_stream(ds, backend, emb, stream, p_units, u, other0, labs, bid="hb"):
         dump = S.dump_bucket(ds, bid)
         got = sorted(t[1:] for t in dump)
         ref = heartbeat_reduce([emb.ev(*x[:2], labs[x[2]]) for x in stream[: n + 1]], pulsetime)
-        want = sorted(_content(e) for e in ref)
+        want = sorted(pre + [_content(e) for e in ref])
         if got != want:
-            probs.append(("bucket-differs-from-reduce", f"after heartbeat {n} bucket {got} != heartbeat_reduce {want}", n))
+            probs.append(("bucket-differs-from-reduce" + (":with-prehistory" if prehistory else ""), f"after heartbeat {n} bucket {got} != {'earlier events + ' if prehistory else ''}heartbeat_reduce {want}", n))
         now = {t[0]: t[1:] for t in dump}
         for i, c in prev.items():
             if i != nid and now.get(i) != c:
@@ -285,6 +301,9 @@ def _unit(args):
         for p in pts:
             probs = run_stream(ds, backend, emb, stream, p, u, other0, labs)
             u.traces += 1
+            if not probs and len(stream) <= 2:
+                probs = run_stream(ds, backend, emb, stream, p, u, other0, labs, prehistory=True)
+                u.traces += 1
             for k in range(2, len(stream) + 1):
                 pre = stream[:k]
                 if (pre, p) not in seen_nt and (_tags(pre, p) & {"end_tie", "zero_len", "gap_eq_pulse"}):
@@ -373,4 +392,6 @@ def run_case(ctx, case):
         probs = run_stream_noise(ds, case["backend"], emb, stream, case["pulsetime_units"], u, other0, _G["labs"], tuple(case["noise"]) + ("none",) * len(stream))
         return {"stream": stream, "noise": case["noise"], "bucket_after": S.dump_bucket(ds, "hb"), "violations": [list(p) for p in probs]}
     probs = run_stream(ds, case["backend"], emb, stream, case["pulsetime_units"], u, other0, _G["labs"])
+    if not probs:
+        probs = run_stream(ds, case["backend"], emb, stream, case["pulsetime_units"], u, other0, _G["labs"], prehistory=True)
     return {"stream": stream, "bucket_after": S.dump_bucket(ds, "hb"), "violations": [list(p) for p in probs]}
